@@ -7,6 +7,7 @@
 #include <fcntl.h>
 #include <time.h>
 #include <ucontext.h>
+#include <dlfcn.h>
 #include <string>
 #include <fstream>
 #include <sstream>
@@ -172,6 +173,12 @@ static void fatalHandler(int sig, siginfo_t* si, void* uc) {
 		p = appendHex(line, p, sizeof line, addr);
 		p = appendStr(line, p, sizeof line, "\",\"pc\":\"0x");
 		p = appendHex(line, p, sizeof line, pc);
+		{
+			// innermost function (dynamic symbol table, binary is linked with -rdynamic); generated code has no symbol
+			Dl_info di; const char* sym = (pc && dladdr((void*)pc, &di) && di.dli_sname) ? di.dli_sname : (region[0] ? "" : "generated-or-unknown-code");
+			p = appendStr(line, p, sizeof line, "\",\"pc_symbol\":\"");
+			p = appendStr(line, p, sizeof line, sym);
+		}
 		p = appendStr(line, p, sizeof line, "\",\"region\":\"");
 		p = appendStr(line, p, sizeof line, region);
 		p = appendStr(line, p, sizeof line, "\",\"sub\":\"");
